@@ -340,6 +340,9 @@ QUOTED_ALPHABET = st.one_of(
 @st.composite
 def quoted_strings(draw, lone_backslash=False):
     text = draw(st.text(alphabet=QUOTED_ALPHABET, max_size=12))
+    if draw(st.integers(0, 11)) == 0:
+        # several lines, one of them holding nothing but blanks, or all of them indented alike
+        text = draw(st.sampled_from(["first\n   \nthird", "x\n\t\ny", "  a\n  b\n  c", "\n \n", "p\n \n\n  q "]))
     v = {"k": "str", "v": text, "q": draw(st.sampled_from(["double", "single"]))}
     if "\n" in text and "\r" not in text and draw(st.booleans()):
         v["raw_nl"] = True
